@@ -2,8 +2,8 @@
 from corr import corr_terms, corr_tvd, corr_ghost, corr_means
 import solversearch as SS
 
-MODULES = ["PyFV.Props.C08", "PyFV.Props.GenEq"]
-TRANSLATORS = {"T-lim": "python3 harness/translate/tlim.py lean/PyFV/Gen/Limiters.lean", "T-num": "python3 harness/translate/tnum.py lean/PyFV/Gen/Stencils.lean"}
+MODULES = ["PyFV.Props.C08", "PyFV.Props.GenEq", "PyFV.Props.GenEqBC", "PyFV.Props.GenEqState"]
+TRANSLATORS = {"T-lim": "python3 harness/translate/tlim.py lean/PyFV/Gen/Limiters.lean", "T-num": "python3 harness/translate/tnum.py lean/PyFV/Gen/Stencils.lean", "T-bc": "python3 harness/translate/tbc.py lean/PyFV/Gen/BCGen.lean", "T-state": "python3 harness/translate/tstate.py lean/PyFV/Gen/StateGen.lean"}
 
 
 def corr(rng, tier):
